@@ -63,6 +63,38 @@ macro_rules! endian_checks {
             if n != v {
                 return Some("into native");
             }
+            // every byte-level view the crate offers for the wrapper shows / accepts the wire bytes
+            let wire = v.$to_bytes();
+            let mut m = w;
+            if m.as_mut_slice() != &wire[..] {
+                return Some("as_mut_slice bytes");
+            }
+            {
+                let vs = m.as_bytes();
+                let mut seen = [0u8; std::mem::size_of::<$N>()];
+                if vs.read_slice(&mut seen, 0).is_err() || seen != wire {
+                    return Some("as_bytes view");
+                }
+            }
+            match <$W>::from_slice(&wire[..]) {
+                Some(r) if r.to_native() == v && *r == w => {}
+                // from_slice may refuse a misaligned slice; `wire` is a local array of the native
+                // type's byte length - alignment is checked separately below
+                Some(_) => return Some("from_slice value"),
+                None => {
+                    if (wire.as_ptr() as usize) % std::mem::align_of::<$N>() == 0 {
+                        return Some("from_slice refused an aligned, right-sized slice");
+                    }
+                }
+            }
+            let mut sink: Vec<u8> = Vec::with_capacity(8);
+            if w.write_all_to(&mut sink).is_err() || sink[..] != wire[..] {
+                return Some("write_all_to bytes");
+            }
+            match <$W>::read_exact_from(&wire[..]) {
+                Ok(r) if r.to_native() == v && r == w => {}
+                _ => return Some("read_exact_from value"),
+            }
             None
         }
     };
@@ -194,6 +226,10 @@ pub fn run(args: &Args) {
         ($W:ty, $N:ty, $name:expr) => {
             if size_of::<$W>() != size_of::<$N>() || align_of::<$W>() != align_of::<$N>() {
                 out::viol(&format!("C20/{}/layout", $name), jobj! {"size" => size_of::<$W>(), "align" => align_of::<$W>()});
+            }
+            let z = <$W>::zeroed();
+            if z.to_native() != 0 || z.as_slice().iter().any(|b| *b != 0) {
+                out::viol(&format!("C20/{}/zeroed", $name), jobj! {"zeroed" => J::dbg(&z)});
             }
             let d = <$W>::default();
             if d.to_native() != 0 || d != (0 as $N) || d.as_slice().iter().any(|b| *b != 0) {
